@@ -646,12 +646,14 @@ def tailf_check(mlr, V, thorough):
     import subprocess
     chains = [["cat"], ["put", "$j = $i . \"x\""], ["filter", "true"], ["cat", "then", "put", "$k = NR"],
               ["sec2gmt", "i"], ["rename", "i,z"], ["cat", "-n"], ["put", "-q", "print $i"],
-              ["head", "-n", "100"], ["fill-down", "-a", "-f", "i"]]
+              ["head", "-n", "100"], ["fill-down", "-a", "-f", "i"],
+              # output that is text only, or records sent by the DSL itself
+              ["put", "-q", "dump $*"], ["put", "-q", "emit $*"], ["put", "-q", "printn $i; print \"\""],
+              ["put", "print \"t\""], ["filter", "-q", "print $i; true"],
+              ["put", "-q", "print $i", "then", "cat"], ["put", "print $i", "then", "nothing"]]
     fmts = [("dkvp", lambda k: "i=%d\n" % k, []), ("nidx", lambda k: "%d\n" % k, ["--inidx", "--ifs", "space", "--oxtab"]),
             ("jsonl", lambda k: '{"i": %d}\n' % k, ["--ijsonl", "--ojsonl"]),
             ("csv", lambda k: "%d\n" % k, ["--icsv", "--implicit-csv-header", "--ocsv", "--headerless-csv-output"])]
-    if not thorough:
-        chains = chains[:6]
     feeds = 0
     late = []
     for fname, mk, flags in fmts:
